@@ -2530,7 +2530,13 @@ class _GenState:
             self.thread.start()
         self.closing = closing
         self.to_gen.release()
-        self.to_con.acquire()
+        if closing:
+            # never wait for ever on a producer that cannot run any more (interpreter shutting down)
+            if not self.to_con.acquire(timeout=2.0):
+                self.done = True
+                return ("closed", None)
+        else:
+            self.to_con.acquire()
         kind, v = self.msg
         if kind != "yield":
             self.done = True
@@ -2566,6 +2572,9 @@ class _LazyGen:
             # a body that yields again while being closed is ignored (Python raises RuntimeError)
 
     def __del__(self):
+        import sys as _sys
+        if _sys is None or _sys.is_finalizing():
+            return                       # helper threads are daemons: nothing to unwind at interpreter exit
         try:
             self.close()
         except BaseException:            # noqa: BLE001
